@@ -295,6 +295,16 @@ theorem step_conn (c : Codec) (limit : Nat) (sp : SpecSt) (n : Node) (t : Int) (
     (by intro i; simp only [Node.setPeer]; split <;> rfl) (by intro i; simp only [Node.setPeer]; split <;> rfl)
   exact this
 
+theorem step_attach (c : Codec) (limit : Nat) (sp : SpecSt) (n : Node) (t : Int) (p : Nat) (hp : p < 6) (h : Rel c sp n t) :
+    ∃ sp', specEnd sp (stepOp c limit n (.attach p)).2 = some sp' ∧ Rel c sp' (stepOp c limit n (.attach p)).1 t := by
+  refine ⟨_, rfl, ?_⟩
+  simp only [stepOp]
+  have := h.of_peers (n.setPeer p (fun q => { q with connected := true }))
+    (sp.conn.set p true) rfl
+    (by rw [h.conn]; rcases six p hp with rfl | rfl | rfl | rfl | rfl | rfl <;> simp [Node.setPeer])
+    (by intro i; simp only [Node.setPeer]; split <;> rfl) (by intro i; simp only [Node.setPeer]; split <;> rfl)
+  exact this
+
 theorem step_disc (c : Codec) (limit : Nat) (sp : SpecSt) (n : Node) (t : Int) (p : Nat) (hp : p < 6) (h : Rel c sp n t) :
     ∃ sp', specEnd sp (stepOp c limit n (.disc p)).2 = some sp' ∧ Rel c sp' (stepOp c limit n (.disc p)).1 t := by
   refine ⟨_, rfl, ?_⟩
@@ -944,6 +954,9 @@ theorem step_advance (c : Codec) (limit : Nat) (sp : SpecSt) (n : Node) (t : Int
       show (if r.skipped.contains p = true then { n.peers p with lpos := now } else n.peers p).lpos ≤ _
       rw [if_neg hs]; exact Int.le_refl _
   | conn q =>
+    simp only [stepOp, advanceEnd, Bool.and_true]
+    exact advanceOk_same _ _ (lpos_same c sp n _ t h (by intro p; simp only [Node.setPeer]; split <;> rfl))
+  | attach q =>
     simp only [stepOp, advanceEnd, Bool.and_true]
     exact advanceOk_same _ _ (lpos_same c sp n _ t h (by intro p; simp only [Node.setPeer]; split <;> rfl))
   | disc q =>
